@@ -72,6 +72,8 @@ def canon_obs(o, flavor, side):
         "H": {k: list(v) for k, v in sorted(o["H"].items())},
         "K": {k: v for k, v in sorted((o.get("K") or {}).items())},
     }
+    if o.get("can") is not None:
+        d["can"] = o["can"]
     if flavor == "sync":
         d["E"] = o.get("E", "")
     else:
